@@ -13,6 +13,7 @@ Section SnodeInd.
   Hypothesis Hor : forall ex alts nu, P (SOr ex alts nu).
   Hypothesis Harr : forall items mn mx nu, Forall P items -> P (SArr items mn mx nu).
   Hypothesis Hobj : forall ms ap nu, Forall (fun m => P (snd (snd m))) ms -> P (SObj ms ap nu).
+  Hypothesis Hobjk : forall ms ks ap nu, Forall (fun m => P (snd (snd m))) ms -> Forall (fun m => P (snd (snd m))) ks -> P (SObjK ms ks ap nu).
   Hypothesis Href : forall name nu, P (SRef name nu).
   Hypothesis Hchoice : forall names nu, P (SChoice names nu).
   Hypothesis Hreflit : forall ex name nu, P (SRefLit ex name nu).
@@ -29,6 +30,13 @@ Section SnodeInd.
                         | [] => Forall_nil _
                         | x :: r => Forall_cons x (snode_ind' (snd (snd x))) (go r)
                         end) ms)
+    | SObjK ms ks ap nu =>
+      let go := (fix go (l : list (bytes * (bool * snode))) : Forall (fun m => P (snd (snd m))) l :=
+                   match l with
+                   | [] => Forall_nil _
+                   | x :: r => Forall_cons x (snode_ind' (snd (snd x))) (go r)
+                   end) in
+      Hobjk ms ks ap nu (go ms) (go ks)
     | SRef name nu => Href name nu
     | SChoice names nu => Hchoice names nu
     | SRefLit ex name nu => Hreflit ex name nu
@@ -63,6 +71,11 @@ Fixpoint accepted_g (n : snode) : Prop :=
   | SObj ms ap _ =>
     (NoDup (map fst ms) /\ match ap with APRef r => refok r | _ => True end) /\
     (fix all (l : list (bytes * (bool * snode))) : Prop := match l with [] => True | x :: r => accepted_g (snd (snd x)) /\ all r end) ms
+  | SObjK ms ks ap _ =>
+    (ks <> [] /\ forall k, In k ks -> refok (fst k)) /\
+    (NoDup (map fst ms) /\ match ap with APRef r => refok r | _ => True end) /\
+    (fix all (l : list (bytes * (bool * snode))) : Prop := match l with [] => True | x :: r => accepted_g (snd (snd x)) /\ all r end) ms /\
+    (fix all (l : list (bytes * (bool * snode))) : Prop := match l with [] => True | x :: r => accepted_g (snd (snd x)) /\ all r end) ks
   | SRef r _ => refok r
   | SChoice names _ => names <> [] /\ forall r, In r names -> refok r
   | SRefLit ex r nu => refok r /\ lit_ok ex /\ ((nu = true /\ ex = w_null_lit) \/ refacc r (JLit ex))
@@ -114,8 +127,8 @@ Qed.
 (* the translation is sound for every value the schema accepts *)
 Theorem tree_sound : forall n, accepted n -> forall v, inst n v -> tvalid (to_otree n) v.
 Proof.
-  induction n as [ex l|ex alts nu|items mn mx nu IH|ms ap nu IH|name nu|names nu|ex name nu] using snode_ind'; intros Hacc v Hi;
-    [| | | |destruct Hacc|destruct Hacc as [Hne Hall]; destruct names as [|r0 rs]; [congruence|destruct (Hall r0 (or_introl eq_refl))]|destruct Hacc as [[] _]].
+  induction n as [ex l|ex alts nu|items mn mx nu IH|ms ap nu IH|ms ks ap nu IH IHk|name nu|names nu|ex name nu] using snode_ind'; intros Hacc v Hi;
+    [| | | |inversion Hi|destruct Hacc|destruct Hacc as [Hne Hall]; destruct names as [|r0 rs]; [congruence|destruct (Hall r0 (or_introl eq_refl))]|destruct Hacc as [[] _]].
   - inversion Hi as [? ? v0 Hv [Hs Hn]| | | | | |]; subst. cbn [to_otree]. constructor.
     destruct Hacc as (Hex & [Hes Hen] & Hr). destruct l as [k rules|].
     + exact (oasx_sound ex k rules v0 Hs Hr Hn Hen Hex Hv).
@@ -161,8 +174,9 @@ Qed.
 (* the schema's own example is one of the values it accepts ... *)
 Theorem example_inst : forall n, accepted n -> inst n (example n).
 Proof.
-  induction n as [ex l|ex alts nu|items mn mx nu IH|ms ap nu IH|name nu|names nu|ex name nu] using snode_ind'; intros Hacc; cbn [example];
-    [| | | |destruct Hacc|destruct Hacc as [Hne Hall]; destruct names as [|r0 rs]; [congruence|destruct (Hall r0 (or_introl eq_refl))]|destruct Hacc as [[] _]].
+  induction n as [ex l|ex alts nu|items mn mx nu IH|ms ap nu IH|ms ks ap nu IH IHk|name nu|names nu|ex name nu] using snode_ind'; intros Hacc; cbn [example];
+    [| | | |destruct Hacc as [[Hne Hall] _]; destruct ks as [|k0 kr]; [congruence|destruct (Hall k0 (or_introl eq_refl))]
+     |destruct Hacc|destruct Hacc as [Hne Hall]; destruct names as [|r0 rs]; [congruence|destruct (Hall r0 (or_introl eq_refl))]|destruct Hacc as [[] _]].
   - destruct Hacc as (Hex & Hlit & _). constructor; assumption.
   - destruct Hacc as (Hlit & _ & _ & [[-> ->]|[(l & Hin & Hv)|(r & rn & _ & [])]]); [apply in_or_null|exact (in_or ex alts nu l ex Hin Hv Hlit)].
   - destruct Hacc as (Hmn & Hmx & Hitems). apply in_arr.
